@@ -40,7 +40,8 @@ def _pauli_order(first):
         import itertools
         perms = [p for p in itertools.permutations(range(4)) if p[0] == first]
         g.shuffle(perms)
-        cs = [props_alg.Case('o.c15.pauliorder %d %d %d %d' % p, 'orc', 'pauli-matrices-first-request-%d' % first) for p in perms[:3]]
+        b0 = {3: 'cir', 2: 'ell', 1: 'lin'}[first]          # the basis in force at the first request of the process
+        cs = [props_alg.Case('o.c15.pauliorder %s %d %d %d %d' % (((b0 if k == 0 else g.choice(['lin', 'cir', 'ell'])),) + tuple(p)), 'orc', 'pauli-matrices-first-request-%d-%s' % (first, b0)) for k, p in enumerate(perms[:3])]
         return cs
     return gen
 for _pid in ('C15', 'C03'):
@@ -57,4 +58,5 @@ for _pid, _specs in (('C13', props_lin.SPECS), ('C03', props_alg.SPECS), ('C11',
     _specs[_pid]['extra'] = list(_specs[_pid].get('extra', [])) + [(props_lin.GROUP_DBL, props_lin.gen_dbl_inttypes)]
 props_sim.SPECS['C07']['extra'] = list(props_sim.SPECS['C07'].get('extra', [])) + [(props_sim.GROUP_FAST, props_sim.gen_fast_c07)]
 props_est.SPECS['C12']['extra'] = list(props_est.SPECS['C12'].get('extra', [])) + [(props_lin.GROUP_DBL, props_lin.gen_dbl_c12)]
+props_est.SPECS['C11']['extra'] = list(props_est.SPECS['C11'].get('extra', [])) + [(props_lin.GROUP_DBL, props_lin.gen_dbl_c11)]
 NOT_CLAIMED = {}
